@@ -5,6 +5,7 @@ import (
 	"context"
 	"crypto/sha256"
 	"fmt"
+	"math"
 	"math/big"
 	"sort"
 	"strings"
@@ -392,6 +393,12 @@ func (m *AuthMonitor) OnTx(h *History, o *TxObs) {
 	}
 	if postN != preN+1 {
 		viol("nonce-not-advanced-by-one", fmt.Sprintf("signer nonce went from %d to %d", preN, postN))
+	}
+	if preN >= 1<<63-1 {
+		m.Rep.Count("executed_with_nonce_at_or_above_2^63-1", 1)
+		if preN == math.MaxUint64 {
+			m.Rep.Count("executed_with_nonce_2^64-1_(wraps_to_0)", 1)
+		}
 	}
 	for a, acct := range post.Accounts {
 		if a == addr {
